@@ -1732,6 +1732,17 @@ Check C01_eq_file : forall dbg hp hpo hd shp shs base sbase input,
         (related dbg shs u su /\ spec_base_ok su = true) /\ base_shape_ok su = true).
 Print Assumptions C01_eq_file.
 
+(* condition (iii) of the class made explicit for the arms in which the model and the Standard enter the path
+   loop at the same place (no or one leading separator; a host that is not empty and not localhost): the
+   comparison of the two lists says exactly that the Standard's segment list does not start with an empty
+   segment followed by more (the leading-slash collapse of parser.rs:1377, findings F-C01-2/3) *)
+Theorem C01_file_class_same_entry : forall hh t,
+  fp_ok hh t t = fpath_ok hh t [] [] && strip_stable (fst (spath_f t [] [])).
+Proof. exact fp_ok_same. Qed.
+Check C01_file_class_same_entry : forall hh t,
+  fp_ok hh t t = fpath_ok hh t [] [] && match fst (spath_f t [] []) with [] :: _ :: _ => false | [] => false | _ => true end.
+Print Assumptions C01_file_class_same_entry.
+
 (* the same with a UTF-8 encoding override *)
 Theorem C01_eq_file_utf8 : forall dbg hp hpo hd shp shs base sbase input,
   usv_list input -> in_class_file input = true ->
